@@ -210,3 +210,80 @@ Theorem C18_source_iterators_are_the_modelled_ones :
     "newick.Node.traverse#0"; "trie.Trie.ForEach#0"; "sequtil.CanonicalSubsequences#0" ]%string.
 Proof. exact SrcGenProofs.iter_yields_names. Qed.
 Print Assumptions C18_source_iterators_are_the_modelled_ones.
+
+(* ---- stopping the iterators as translated from the source ----------------------------------------------
+   gen-imp emits every iterator twice: for a consumer that never stops (the ..._is_source theorems
+   of C01-C05, C12) and, as <name>_stop, for a consumer that declines after stop__ items (0: never):
+   yield(x) appends x to the items and returns negb (length items =? stop__).  An iterator that went
+   on after a declined yield would append a further item, and one that dropped or reordered items
+   would show it.  For every input, every terminal condition and EVERY stopping position the items
+   are exactly the first stop__ items of the uninterrupted run ([take_stop]): no callback after the
+   consumer has declined, no panic (the result is a Ret), the leading items unchanged — also when the
+   item declined is an error item.  (The nested adapters — Reader over ReaderHeader / iter() — take the
+   inner iterator's items and stop their own loop; that the inner one stops is its own theorem.) *)
+From Bio.gen Require ImpGen.
+From Bio.Model Require GoSem.
+From Bio.Proofs Require ImpProofs ImpProofsJ ImpProofsK ImpProofsL ImpProofsQ ImpProofsR ImpProofsU.
+
+Theorem C18_canonical_stop_is_source : forall p s k, ImpProofs.all_bytes s ->
+  ImpGen.imp_sequtil_CanonicalSubsequences_stop p s k
+  = match Seq.canon s k with Ok items => GoSem.Ret (ImpProofsU.take_stop p items) | _ => GoSem.Panics end.
+Proof. exact ImpProofsU.imp_CanonicalSubsequences_stop. Qed.
+Print Assumptions C18_canonical_stop_is_source.
+
+Theorem C18_fasta_stop_is_source : forall p t fuel inp, (length inp + 2 < fuel)%nat ->
+  (exists st, ImpGen.imp_fastard_reader_iter_stop p fuel (GoSem.Stream inp (ImpProofsJ.term_code t) None)
+              = GoSem.Ret (st, ImpProofsU.take_stop p (map (ImpProofsJ.fa_item t) (Fasta.decode inp t))))
+  /\ ImpGen.imp_fastard_Reader_stop p fuel (GoSem.Stream inp (ImpProofsJ.term_code t) None)
+     = GoSem.Ret (GoSem.Stream [] (ImpProofsJ.term_code t) None,
+                  ImpProofsU.take_stop p (map (ImpProofsJ.fa_item t) (Fasta.decode inp t))).
+Proof.
+  intros p t fuel inp H. split; [apply ImpProofsU.imp_fasta_iter_stop_ok | apply ImpProofsU.imp_fasta_Reader_stop_ok]; exact H.
+Qed.
+Print Assumptions C18_fasta_stop_is_source.
+
+Theorem C18_fastq_stop_is_source : forall p t fuel cur (toks : list bytes), (length toks + 1 < fuel)%nat ->
+  (exists s' out, ImpGen.imp_fastqrd_reader_iter_stop p fuel (GoSem.Scanner cur toks (ImpProofsK.scan_code t) false)
+                  = GoSem.Ret (s', ImpProofsU.take_stop p out)
+                  /\ Forall2 ImpProofsK.fq_item_ok (Fastq.decode_toks t toks) out)
+  /\ (exists s' out, ImpGen.imp_fastqrd_Reader_stop p fuel (GoSem.Scanner cur toks (ImpProofsK.scan_code t) false)
+                     = GoSem.Ret (s', ImpProofsU.take_stop p out)
+                     /\ Forall2 ImpProofsK.fq_item_ok (Fastq.decode_toks t toks) out).
+Proof.
+  intros p t fuel cur toks H. split; [apply ImpProofsU.imp_fastq_iter_stop_ok | apply ImpProofsU.imp_fastq_Reader_stop_ok]; exact H.
+Qed.
+Print Assumptions C18_fastq_stop_is_source.
+
+Theorem C18_sam_stop_is_source : forall p o t fuel s, (length s + 1 < fuel)%nat ->
+  (exists st, ImpGen.imp_samrd_ReaderHeader_stop p fuel o (GoSem.Stream s (ImpProofsJ.term_code t) None)
+              = GoSem.Ret (st, ImpProofsU.take_stop p (map ImpProofsQ.sh_item (Sam.reader_header o s t))))
+  /\ (exists st, ImpGen.imp_samrd_Reader_stop p fuel o (GoSem.Stream s (ImpProofsJ.term_code t) None)
+                 = GoSem.Ret (st, ImpProofsU.take_stop p (map ImpProofsQ.sr_item (Sam.reader o s t)))).
+Proof.
+  intros p o t fuel s H. split; [apply ImpProofsU.imp_sam_ReaderHeader_stop_ok | apply ImpProofsU.imp_sam_Reader_stop_ok]; exact H.
+Qed.
+Print Assumptions C18_sam_stop_is_source.
+
+Theorem C18_bed_stop_is_source : forall p t fuel s, (length s + 2 < fuel)%nat ->
+  exists st, ImpGen.imp_bed_Reader_stop p fuel (GoSem.Stream s (ImpProofsJ.term_code t) None)
+             = GoSem.Ret (st, ImpProofsU.take_stop p (map ImpProofsL.bed_item (Bed.decode s t))).
+Proof. exact ImpProofsU.imp_bed_Reader_stop_ok. Qed.
+Print Assumptions C18_bed_stop_is_source.
+
+Theorem C18_newick_stop_is_source : forall p o tm fuel h s, (length s + 2 < fuel)%nat ->
+  match Newick.decode o s tm with
+  | Ok items => exists st h' out,
+      ImpGen.imp_newickrd_Reader_stop p fuel o h (GoSem.Stream s (ImpProofsJ.term_code tm) None) = GoSem.Ret (st, (h', out)) /\
+      Forall2 (ImpProofsR.item_holds h') (ImpProofsU.take_stop p items) out /\ ImpProofsR.keeps (GoSem.go_len h) h h'
+  | _ => True
+  end.
+Proof. exact ImpProofsU.imp_newick_Reader_stop_ok. Qed.
+Print Assumptions C18_newick_stop_is_source.
+
+Example C18_source_stop_example :
+  ImpGen.imp_sequtil_CanonicalSubsequences_stop 2 (bs "ACGTT") 2 = GoSem.Ret [bs "AC"; bs "CG"]
+  /\ ImpGen.imp_sequtil_CanonicalSubsequences_stop 0 (bs "ACGTT") 2 = GoSem.Ret [bs "AC"; bs "CG"; bs "AC"; bs "AA"]
+  /\ ImpGen.imp_bed_Reader_stop 1 100 (GoSem.Stream (bs "c" ++ [9] ++ bs "1" ++ [9] ++ bs "2" ++ [10] ++ bs "c" ++ [9] ++ bs "x")%N 1%Z None)
+     = GoSem.Ret (GoSem.Stream (bs "c" ++ [9] ++ bs "x")%N 1%Z None,
+                  [(ImpGen.Imp_bed_BED 3 (bs "c") 1 2 [] 0 [] 0 0 [0; 0; 0]%N 0 [] [], 0%Z)]).
+Proof. vm_compute. repeat split. Qed.
